@@ -124,7 +124,7 @@ def flatten(node, kind):
     return [node]
 
 
-def analyse(ctx, astnode, term, sql, events, alias):
+def analyse(ctx, astnode, term, sql, events, alias, unique=True):
     """-> list of problems (strings).  events: [(visitor, node, result)]"""
     try:
         tree, toks = sql_parse.parse(sql)
@@ -191,7 +191,7 @@ def analyse(ctx, astnode, term, sql, events, alias):
                              "(months, seconds), not %s" % (node.val, got, want))
         # (d) leaves
         if cn in ("Identifier", "Integer", "Float", "String") and not in_call:
-            if len(occ) != 1:
+            if unique and len(occ) != 1:
                 probs.append("(d) leaf %r occurs %d times outside a call" % (frag, len(occ)))
         if cn == "Identifier" and alias and not frag.startswith('"%s".' % alias):
             probs.append("(e) field reference %r is not qualified by the alias" % frag)
@@ -317,7 +317,7 @@ def reused_translate(astnode, dialect, alias):
         return "%s: %s" % (type(e).__name__, str(e)[:100])
 
 
-def one(ctx, t, dialect, alias):
+def one(ctx, t, dialect, alias, unique=True):
     """-> (problems, sql) ; problems None when outside the fragment"""
     text = to_text(t)
     o = drive.parse_ast(text)
@@ -337,7 +337,7 @@ def one(ctx, t, dialect, alias):
     if again != sql:
         return ["(e) a visitor used before, with table_alias now %r, translates differently "
                 "from a fresh one: %s" % (alias, str(again)[:200])], sql
-    probs = analyse(ctx, o[1], t, sql, res[2].events, alias)
+    probs = analyse(ctx, o[1], t, sql, res[2].events, alias, unique)
     if alias and not probs:
         res0 = translate(o[1], dialect, None)
         if res0[0] == "sql":
@@ -375,9 +375,9 @@ def n_ops(t):
     return sum(1 for n in T.walk(t) if n[0] in ("bin", "cmp", "bool", "un", "call"))
 
 
-def judge(ctx, t, dialect, alias, cls):
+def judge(ctx, t, dialect, alias, cls, unique=True):
     ctx.count("evaluations")
-    probs, sql = one(ctx, t, dialect, alias)
+    probs, sql = one(ctx, t, dialect, alias, unique)
     if probs is None:
         return
     ctx.cls("dialect:%s" % dialect)
@@ -390,12 +390,12 @@ def judge(ctx, t, dialect, alias, cls):
     p0 = probs[0][:3]
 
     def still(t2):
-        pr, _ = one(ctx, t2, dialect, alias)
+        pr, _ = one(ctx, t2, dialect, alias, unique)
         return bool(pr) and pr[0][:3] == p0
-    small = shrink(t, still, max_tries=200, accept=typed_ok)
+    small = shrink(t, still, max_tries=200, accept=typed_ok) if unique else t
     if small is not t and still(small):
         t = small
-        probs, sql = one(ctx, t, dialect, alias)
+        probs, sql = one(ctx, t, dialect, alias, unique)
     keys = findings.sql_structure_triggers(t, dialect)
     ctx.fail({"filter": to_text(t), "dialect": dialect, "alias": alias, "sql": sql, "term": t},
              probs[0][:60], expected="well-formed SQL mirroring the filter", observed=probs[:4],
@@ -421,6 +421,29 @@ def run(ctx):
             for dialect in dl:
                 judge(ctx, uniquify(t), dialect, None, "coverage")
                 judge(ctx, uniquify(t), dialect, "tb", "coverage")
+    # operands that are EQUAL BY VALUE (the uniquifier below never produces them): the same
+    # sub-expression on both sides of every arithmetic / comparison / boolean operator
+    a_, b_, s_ = T.ident("a_1"), T.ident("b_2"), T.ident("s_3")
+    subs = [("bin", o2, a_, b_) for o2 in ("add", "sub", "mul", "div", "mod")] + \
+           [T.call("indexof", s_, T.S("x")), T.call("length", s_), ("un", "neg", a_)]
+    j = 0
+    for e in subs:
+        for op in ("add", "sub", "mul", "div", "mod"):
+            j += 1
+            if not ctx.mine(j):
+                continue
+            t = ("cmp", "eq", ("bin", op, e, e), T.I(7))
+            for dialect in dl:
+                for alias in (None, "tb"):
+                    ctx.cls("equal-operands")
+                    judge(ctx, t, dialect, alias, "equal-operands", unique=False)
+    for op in ("and", "or"):
+        e = ("cmp", "eq", a_, T.I(1))
+        t = ("bool", op, ("bool", "or" if op == "and" else "and", e, ("cmp", "gt", b_, T.I(2))),
+             ("bool", "or" if op == "and" else "and", e, ("cmp", "gt", b_, T.I(2))))
+        if ctx.shard == 0:
+            for dialect in dl:
+                judge(ctx, t, dialect, None, "equal-operands", unique=False)
     # literal spellings outside the ABNF that a lexer built on \d / \w / \s may accept: IF a
     # filter is accepted, its SQL must still be well formed and mirror it
     exotic = [("a", T.lit("int", "\uff15")), ("a", T.lit("int", "-\u0663")), ("a", T.lit("int", "1\u0662")),
